@@ -21,4 +21,20 @@ def jaroF (a b : Str) : Dbl :=
   let st := Sim.jaroFinal a b
   jaroValueF st.nMatch st.nHalf a.length b.length
 
+/-- the constant `0.1` of `JaroWinkler` as a float64 -/
+def tenth : Dbl := rnd 1 10
+
+/-- `j + 0.1*prefixMatch*(1.0-j)` above the boost threshold, `j` itself up to it -/
+def jwValueF (j boost : Dbl) (pm : Nat) : Dbl :=
+  if le j boost then j else add j (mul (mul tenth (ofNat pm)) (oneMinus j))
+
+def jaroWinklerF (a b : Str) (boost : Dbl) (prefixSize : Nat) : Dbl :=
+  jwValueF (jaroF a b) boost (Sim.prefixMatches prefixSize a b)
+
+/-- `StringSimilarity`: Jaro-Winkler of the names as they are compared (`Sim.comparedNames`:
+    lower-cased, reduced to a-z 0-9 and spaces, or as written when nothing is left) -/
+def stringSimilarityF (a b : Str) (boost : Dbl) (prefixSize : Nat) : Dbl :=
+  let p := Sim.comparedNames a b
+  jaroWinklerF p.1 p.2 boost prefixSize
+
 end Gedcom.F64
